@@ -71,10 +71,9 @@ def run(ctx):
         "lead": [0, 0, 1, 1], "trail": [1, 1, 0, 0, 0], "inter": [1, 0, 1, 0, 0, 1, 0, 1], "empty": [0, 0, 0, 0], "one-mid": [0, 0, 0, 1, 0, 0],
         "dense-then-hole": [1, 1, 1, 1, 0, 0, 0, 0], "start-end": [1] + [0] * 14 + [1],
     }
-    if not quick:
-        for i in range(24):
-            n = rnd.randint(4, 48)
-            layouts["rand%d" % i] = [1 if rnd.random() < 0.35 else 0 for _ in range(n)]
+    for i in range(3 if quick else 80):
+        n = rnd.randint(4, 24 if quick else 64)
+        layouts["rand%d" % i] = [1 if rnd.random() < 0.35 else 0 for _ in range(n)]
     jobs = []
     n = 0
     def add(name, cells, cell, drv, bb, prior, workers, grow_of=None):
@@ -87,8 +86,11 @@ def run(ctx):
     for name, cells in layouts.items():
         for drv in ("parfile", "parblock"):
             for bb in ((256 * 1024, 3 * MIB) if quick else (64 * 1024, 256 * 1024, MIB, 3 * MIB, 64 * MIB)):
-                for prior in (0, 2):
+                # older destination: none / half as long / exactly as long / longer (all fully allocated, non-zero)
+                for prior in ((0, len(cells) + 1, len(cells)) if quick else (0, 1, len(cells), len(cells) + 1)):
                     w = rnd.choice([1, 2, 4, 16])
+                    if quick and prior == len(cells) and bb != 256 * 1024:
+                        continue
                     add(name, cells, MIB, drv, bb, prior, w)
             # growth form: holes four times larger, same data
             b = add(name + "-base", cells, MIB, drv, MIB, 0, 2)
@@ -107,10 +109,10 @@ def run(ctx):
         many += [1] + [0] * 16
     for drv in ("parfile", "parblock"):
         for bb in (32 * 1024, 256 * 1024, 8 * MIB):
-            for prior in (0, 2):
+            for prior in (0, len(many) + 2):
                 add("many%d" % (len(many) // 17), many + [1], 64 * 1024, drv, bb, prior, rnd.choice([1, 4, 16]))
     ctx.rule = ("layouts of 1 MiB cells (leading, trailing, interleaved, entirely empty, data only at both ends, seeded random in thorough), "
-                "block sizes below and above the segment size, fresh and fully allocated longer pre-existing destination, workers 1..16, both drivers; "
+                "block sizes below and above the segment size, fresh and fully allocated pre-existing destination (longer, exactly as long, half as long), workers 1..16, both drivers; "
                 "40/70 data extents separated by 1 MiB holes (two or three FIEMAP pages); growth form (every hole x4 => same allocation). Oracle by "
                 "TLC: st_blocks(dst) <= st_blocks(src) + slack(4 KiB + 4 KiB per extent), SEEK_DATA map of dst inside the block-rounded map of src. "
                 "non-trivial = at least one hole of >= 1 MiB and one data cell; distinct by scenario id")
